@@ -136,8 +136,11 @@ class Gen:
         self.seedctr = rng.randint(1, 1 << 20)
         self.duplex = False      # set per case: may a peer ping arrive in the middle of a streaming frame?
         self.midframe = False
+        self.xconn = False       # members of multi-connection groups: small, mostly non-ASCII text, never duplex
 
     def size(self, allow_big=True, cap=None):
+        if self.xconn:
+            allow_big, cap = False, min(cap or 150, 150)
         r = self.rng.random()
         if allow_big and self.big_budget > 0 and r < 0.12:
             self.big_budget -= 1
@@ -153,7 +156,7 @@ class Gen:
     def payload(self, n, text=False):
         rng = self.rng
         if text:
-            if n <= 64 and rng.random() < 0.4:
+            if self.xconn or (n <= 64 and rng.random() < 0.4):
                 s = rng.choice(UTF8_SAMPLES).encode()
                 b = (s * (n // len(s) + 1))
                 # cut on a character boundary
@@ -217,7 +220,7 @@ class Gen:
         rng = self.rng
         ops, expect = [], []
         options = {}
-        self.duplex = rng.random() < 0.06
+        self.duplex = (not self.xconn) and rng.random() < 0.06
         self.midframe = False
         if rng.random() < 0.25:
             options["autoFragmentSize"] = rng.choice([1, 2, 7, 125, 126, 127, 1000, 65535, 65536])
@@ -234,7 +237,7 @@ class Gen:
         for _ in range(rng.randint(1, 4)):
             self.control(ops, expect)
             api = rng.choice(["sendMessage", "sendMessage", "fragment", "frameapi", "streaming", "streaming", "prepared"])
-            binary = rng.random() < 0.6
+            binary = rng.random() < (0.2 if self.xconn else 0.6)
             sync = rng.random() < 0.25
             if api in ("sendMessage", "fragment"):
                 n = self.size()
@@ -255,7 +258,7 @@ class Gen:
                     self.control(ops, expect)
             elif api == "frameapi":
                 n = self.size(cap=400)
-                data = os_random(rng, n, not binary)
+                data = os_random(rng, n, not binary, self.xconn)
                 n = len(data)
                 ops.append(["beginMessage", binary])
                 k = rng.randint(1, 4)
@@ -279,7 +282,7 @@ class Gen:
                     expect.append(["msg", desc, binary])
                 else:
                     n = self.size(allow_big=False, cap=400)
-                    data = os_random(rng, n, not binary)
+                    data = os_random(rng, n, not binary, self.xconn)
                     n = len(data)
                     ops.append(["beginMessage", binary])
                     k = rng.randint(1, 4)
@@ -387,9 +390,9 @@ class Gen:
         return {"role": role, "options": {}, "ops": ops, "expect": None, "fifo": True, "kind": "fifo"}
 
 
-def os_random(rng, n, text):
+def os_random(rng, n, text, always_utf8=False):
     if text:
-        if rng.random() < 0.4:
+        if always_utf8 or rng.random() < 0.4:
             s = rng.choice(UTF8_SAMPLES).encode()
             b = (s * (n // len(s) + 1))[:n]
             while True:
@@ -530,6 +533,28 @@ def corpus_cases():
     return out
 
 
+def gen_xconn(ck, fw):
+    """groups of 2-3 connections (both roles) that live in ONE driver process: interleaved send calls, then the
+    segments of all wires delivered interleaved to their same-process peers; mostly non-ASCII text, so that cuts fall
+    inside code points while another connection receives text in between"""
+    rng = ck.rng(f"xconn/{fw}")
+    g = Gen(rng, big_budget=0)
+    g.xconn = True
+    n = 36 if ck.quick() else 400
+    groups = []
+    for gi in range(n):
+        members = []
+        for _ in range(rng.choice([2, 2, 3])):
+            m = g.legal(rng.choice(["client", "server"]))
+            assert same_events(spec_py(m["ops"], m.get("options") or {}), m["expect"])
+            members.append(m)
+        mode = ["drip", "cuts", "drip", "cuts", "drip", "whole"][gi % 6]
+        groups.append({"members": members, "mode": mode, "seed": rng.randint(0, 1 << 30),
+                       "order": "round_robin" if gi % 2 == 0 else "random",
+                       "burst": fw == "aio" and gi % 3 == 0})
+    return groups
+
+
 def gen_cases(ck, fw, role, nvx=False):
     quick = ck.quick()
     rng = ck.rng(f"gen/{fw}/{role}/{nvx}")
@@ -610,7 +635,11 @@ def run(ck):
         "options, state changes; (c) sendData-only FIFO sequences with chopsize/sync mixes. Each call's transport.write "
         "arguments and result are compared with the Gallina model (coqc vm_compute); legal cases are also judged by an "
         "independent RFC 6455 parser and delivered to a real peer of the opposite role under re-segmentation (every split "
-        "position for short streams, 1-octet drip, random cuts). non-trivial = case reached the send path (>= 1 write); "
+        "position for short streams, 1-octet drip, random cuts; on asyncio also as bursts); (d) XCONN groups: 2-3 real connections "
+        "of both roles in ONE process, send calls interleaved, segments (drip / random cuts) of all wires delivered "
+        "interleaved to their same-process peers, mostly non-ASCII text so that cuts fall inside code points -- each "
+        "connection must deliver exactly its own messages (a failure is re-run alone to tell a leak from a plain defect). "
+        "non-trivial = case reached the send path (>= 1 write); "
         "distinct = distinct (framework, role, options, op list)")
     ck.extra_tb += [
         "modelled, not verified: CPython bytes/int/deque semantics as mirrored in Model/WsSend.v; txaio.call_later "
@@ -682,8 +711,60 @@ def run(ck):
                 hist[kk] = hist.get(kk, 0) + v
         return results, hist
 
-    with ThreadPoolExecutor(6) as ex:
+    xgroups = {fw: gen_xconn(ck, fw) for fw in ("tx", "aio")}
+
+    def drive_x(fw):
+        gs = xgroups[fw]
+        k = 2 if ck.quick() else 4
+        parts = [gs[i::k] for i in range(k)]
+        with ThreadPoolExecutor(k) as ex:
+            rs = list(ex.map(lambda p: ck.run_impl("ws_send.py", {"fw": fw, "cases": [], "xconn": p}, nvx=False,
+                                                   timeout=3000) if p else {"xconn": [], "hist": {}}, parts))
+        res = [None] * len(gs)
+        for i, r in enumerate(rs):
+            for jx, x in enumerate(r["xconn"]):
+                res[i + jx * k] = x
+            for kk, v in r["hist"].items():
+                ck.bump(kk, v)
+        return res
+
+    with ThreadPoolExecutor(8) as ex:
+        fx = {fw: ex.submit(drive_x, fw) for fw in ("tx", "aio")}
         outs = list(ex.map(drive, jobs))
+        xouts = {fw: f.result() for fw, f in fx.items()}
+
+    # several connections in one process: every connection delivers exactly its own messages
+    for fw in ("tx", "aio"):
+        nbad = 0
+        for grp, xr in zip(xgroups[fw], xouts[fw]):
+            ck.evaluations += 1
+            ck.bump("case:xconn")
+            ck.note_cases(0, [json.dumps([fw, "xconn", grp], sort_keys=True)])
+            for f in xr["fails"]:
+                nbad += 1
+                ck.bump(f"xconn-failure:{f['stage']}:{'isolation' if f['alone_ok'] else 'alone-too'}")
+                rep = {"fw": fw, "group": grp, "fail": f}
+                if f["stage"] == "receive" and f["alone_ok"]:
+                    ck.violation(f"xconn/{fw}/{f['role']}-receives/interleaved-with-other-connection",
+                                 f"several connections in one process ({fw}): a {f['role']} connection fed segments interleaved "
+                                 f"with another connection's segments did not deliver exactly what its own peer sent (state "
+                                 f"{f['state']}, got {f['got']}, want {f['want']}, {f['bad']}); the same segments delivered to "
+                                 "the connection alone are fine -- state leaks between connections", rep, found_input=True)
+                elif f["stage"] == "receive":
+                    ck.violation(f"e2e/{fw}/{f['role']}-receives/{f['mode']}",
+                                 f"real peer did not deliver exactly the sent messages ({fw}): state {f['state']}, got "
+                                 f"{f['got']}, want {f['want']}, bad {f['bad']}", rep, found_input=True)
+                elif f["alone_ok"]:
+                    ck.violation(f"xconn/{fw}/{f['role']}-sends/interleaved-with-other-connection",
+                                 f"several connections in one process ({fw}): with its send calls interleaved with another "
+                                 f"connection's calls a {f['role']} wrote octets that are not the well-formed frame sequence of "
+                                 f"its own messages ({f['problem']}); alone the same calls are fine -- state leaks between "
+                                 "connections", rep, found_input=True)
+                else:
+                    ck.violation(f"sender/{f['role']}/xconn-member/{re.sub(r'[0-9]+', 'N', f['problem'].split(':')[0])[:60]}",
+                                 f"octets written by the real {f['role']} ({fw}) for a legal call sequence are not the "
+                                 f"well-formed frame sequence of the sent messages: {f['problem']}", rep, found_input=True)
+        ck.log(f"xconn {fw}: {len(xgroups[fw])} groups of 2-3 same-process connections, {nbad} failures")
 
     coq_cases, coq_index = [], []
     n_oracle = n_e2e = n_fifo = 0
@@ -820,6 +901,13 @@ def run(ck):
 def replay(path):
     r = json.load(open(path))["replay"]
     ck = vlib.Check("C01", "quick", 1)
+    if "group" in r:
+        fw = r["fw"]
+        x = ck.run_impl("ws_send.py", {"fw": fw, "cases": [], "xconn": [r["group"]]}, nvx=False, timeout=600)["xconn"][0]
+        print("group:", json.dumps([{k: m[k] for k in ("role", "options", "ops")} for m in r["group"]["members"]])[:3000])
+        print("mode:", r["group"]["mode"], "order:", r["group"].get("order"), "burst:", r["group"].get("burst"))
+        print("result:", json.dumps(x))
+        return 0 if x["ok"] else 1
     case, fw = r["case"], r["fw"]
     case = dict(case)
     case.setdefault("e2e", None)
